@@ -63,9 +63,10 @@ type schedState struct {
 	ilo, ihi map[types.Object]int64
 	hasLo    map[types.Object]bool
 	hasHi    map[types.Object]bool
-	examined map[string]bool // "sym+off"
-	method   map[string]int  // +1 true, -1 false
-	flag     map[string]int  // "Or:idx" -> +1/-1
+	ine      map[types.Object]map[int64]bool // known disequalities
+	examined map[string]bool                 // "sym+off"
+	method   map[string]int                  // +1 true, -1 false
+	flag     map[string]int                  // "Or:idx" -> +1/-1
 	waited   map[string]bool
 	skipped  map[string]bool
 	lastKind string // "", "START", "SKIP"
@@ -75,7 +76,7 @@ type schedState struct {
 
 func (s *schedState) clone() *schedState {
 	n := &schedState{env: map[types.Object]sval{}, lt: map[string]int64{}, ge: map[string]int64{}, lo: map[string]int64{},
-		ilo: map[types.Object]int64{}, ihi: map[types.Object]int64{}, hasLo: map[types.Object]bool{}, hasHi: map[types.Object]bool{},
+		ilo: map[types.Object]int64{}, ihi: map[types.Object]int64{}, hasLo: map[types.Object]bool{}, hasHi: map[types.Object]bool{}, ine: map[types.Object]map[int64]bool{},
 		examined: map[string]bool{}, method: map[string]int{}, flag: map[string]int{}, waited: map[string]bool{}, skipped: map[string]bool{},
 		lastKind: s.lastKind, lastIdx: s.lastIdx}
 	for k, v := range s.env {
@@ -101,6 +102,12 @@ func (s *schedState) clone() *schedState {
 	}
 	for k, v := range s.hasHi {
 		n.hasHi[k] = v
+	}
+	for o, m := range s.ine {
+		n.ine[o] = map[int64]bool{}
+		for k := range m {
+			n.ine[o][k] = true
+		}
 	}
 	for k, v := range s.examined {
 		n.examined[k] = v
@@ -140,6 +147,11 @@ func (s *schedState) sig() string {
 	}
 	for o := range s.hasHi {
 		parts = append(parts, fmt.Sprintf("ihi:%s:%d", o.Name(), s.ihi[o]))
+	}
+	for o, m := range s.ine {
+		for k := range m {
+			parts = append(parts, fmt.Sprintf("ne:%s:%d", o.Name(), k))
+		}
 	}
 	for k := range s.examined {
 		parts = append(parts, "ex:"+k)
@@ -292,6 +304,7 @@ type schedExplorer struct {
 	undec    []string
 	tryMode  bool
 	steps    int
+	pseudos  map[string]types.Object
 }
 
 // exploreScheduler runs the path exploration and records obligations under
@@ -580,6 +593,19 @@ func (ex *schedExplorer) evalCond(e ast.Expr, st *schedState) []condBranch {
 			for _, side := range []ast.Expr{x.X, x.Y} {
 				ex.noteReads(side, st)
 			}
+			// procs[k].ExitNum vs const: interval keyed by the process index, so that
+			// `ExitNum == 0` and `ExitNum != 0` on one path stay consistent
+			for _, sides := range [][2]ast.Expr{{x.X, x.Y}, {x.Y, x.X}} {
+				if idx, field, ok := ex.procField(sides[0], st); ok && field == "ExitNum" && idx.kind != 0 {
+					if k, ok := constInt(ex.info, sides[1]); ok {
+						op := x.Op
+						if sides[0] != x.X {
+							op = map[token.Token]token.Token{token.LSS: token.GTR, token.GTR: token.LSS, token.LEQ: token.GEQ, token.GEQ: token.LEQ, token.EQL: token.EQL, token.NEQ: token.NEQ}[op]
+						}
+						return ex.cmpInterval(ex.pseudo("ExitNum:"+idx.String()), op, k, st)
+					}
+				}
+			}
 			// opaque int local vs const (exit number interval)
 			if id, ok := unparen(x.X).(*ast.Ident); ok {
 				if o := ex.info.ObjectOf(id); o != nil {
@@ -626,6 +652,19 @@ func (ex *schedExplorer) evalCond(e ast.Expr, st *schedState) []condBranch {
 	return []condBranch{{st.clone(), true}, {st.clone(), false}}
 }
 
+// pseudo returns a stable fake object used as an interval key.
+func (ex *schedExplorer) pseudo(name string) types.Object {
+	if ex.pseudos == nil {
+		ex.pseudos = map[string]types.Object{}
+	}
+	if o, ok := ex.pseudos[name]; ok {
+		return o
+	}
+	o := types.NewVar(token.NoPos, nil, name, types.Typ[types.Int])
+	ex.pseudos[name] = o
+	return o
+}
+
 func (ex *schedExplorer) cmpInterval(o types.Object, op token.Token, k int64, st *schedState) []condBranch {
 	mk := func(o2 token.Token) *schedState {
 		n := st.clone()
@@ -652,10 +691,16 @@ func (ex *schedExplorer) cmpInterval(o types.Object, op token.Token, k int64, st
 			setLo(k)
 			setHi(k)
 		}
+		if o2 == token.NEQ {
+			if n.ine[o] == nil {
+				n.ine[o] = map[int64]bool{}
+			}
+			n.ine[o][k] = true
+		}
 		if n.hasLo[o] && n.hasHi[o] && n.ilo[o] > n.ihi[o] {
 			return nil
 		}
-		if o2 == token.NEQ && n.hasLo[o] && n.hasHi[o] && n.ilo[o] == k && n.ihi[o] == k {
+		if n.hasLo[o] && n.hasHi[o] && n.ilo[o] == n.ihi[o] && n.ine[o][n.ilo[o]] {
 			return nil
 		}
 		return n
@@ -797,6 +842,7 @@ func (ex *schedExplorer) assign(lhs ast.Expr, rhs ast.Expr, st *schedState) {
 		delete(st.env, o)
 		delete(st.hasLo, o)
 		delete(st.hasHi, o)
+		delete(st.ine, o)
 		return
 	}
 	if v.off > 6 || v.off < -6 {
@@ -945,6 +991,23 @@ func (ex *schedExplorer) event(kind string, idx sval, n ast.Node, st *schedState
 		ok := st.examined[key]
 		ex.note("exam", st.lastKind+"→SKIP", ok, n.Pos(), st, fmt.Sprintf("process %s is skipped without its own &&/|| flag having been read", idx))
 		st.skipped[key] = true
+	}
+	for o := range st.hasLo {
+		if strings.HasPrefix(o.Name(), "ExitNum:") {
+			delete(st.hasLo, o)
+			delete(st.ilo, o)
+		}
+	}
+	for o := range st.hasHi {
+		if strings.HasPrefix(o.Name(), "ExitNum:") {
+			delete(st.hasHi, o)
+			delete(st.ihi, o)
+		}
+	}
+	for o := range st.ine {
+		if strings.HasPrefix(o.Name(), "ExitNum:") {
+			delete(st.ine, o)
+		}
 	}
 	st.lastKind, st.lastIdx = kind, idx
 	st.rebase(idx)
